@@ -306,3 +306,210 @@ func H_c13_hours() {
 	}
 	verif_witness()
 }
+
+// interface names are resolved through the OS; host strings in the harness are not interface
+// names, for which the real function returns its argument
+//
+//verif:stub Havoc/pkg/common.GetInterfaceIpv4Addr
+func verifStubIfaceAddr(s string) string { return s }
+
+func verifBaseBuilder() *Builder {
+	b := &Builder{silent: true}
+	b.SendConsoleMessage = func(MsgType, Message string) {}
+	b.config.Config = map[string]any{
+		"Sleep":  "2",
+		"Jitter": "10",
+		"Injection": map[string]any{
+			"Alloc": verifAllocOpts[0], "Execute": verifAllocOpts[0], "Spawn64": "C:\\a.exe", "Spawn32": "C:\\b.exe",
+		},
+		"Sleep Technique":   verifSleepOpts[0],
+		"Sleep Jmp Gadget":  verifGadgetOpts[0],
+		"Stack Duplication": false,
+		"Proxy Loading":     verifProxyOpts[0],
+		"Amsi/Etw Patch":    verifAmsiOpts[0],
+		"Indirect Syscall":  false,
+	}
+	return b
+}
+
+// verifSkipGeneral reads the 12 general fields that precede the transport block.
+func verifSkipGeneral(r *verifCfgReader) {
+	r.i32()
+	r.i32()
+	r.i32()
+	r.i32()
+	r.wide()
+	r.wide()
+	for k := 0; k < 6; k++ {
+		r.i32()
+	}
+}
+
+// H_c13_http: the transport block of an HTTP listener, read the way the Demon reads it
+// (Demon.c DemonConfig, TRANSPORT_HTTP: kill date, working hours, method, host rotation,
+// host count, (host, port)*, secure, user agent, header count, headers, uri count, uris,
+// proxy flag [, url, user, password]), equals the listener's settings: every host with its
+// own port or the listener's connect port (bind port when no connect port is set), TLS flag,
+// user agent, headers incl. the host header, URIs, proxy; an unparsable port or the GET
+// method makes the build fail. Building twice from the same listener gives the same block.
+func H_c13_http() {
+	b := verifBaseBuilder()
+	h := &handlers.HTTP{}
+	kill := nondet_u64("killdate")
+	h.Config.KillDate = int64(kill)
+	h.Config.WorkingHours = ""
+	method := []string{"POST", "post", "GET", "get", ""}[nondet_choice("method", 5)]
+	h.Config.Methode = method
+	// independent code paths share a choice to keep the product small: rotation with the URI
+	// count, the TLS flag with the host header
+	nu := nondet_choice("uris", 3)
+	rot := nu
+	h.Config.HostRotation = []string{"round-robin", "random", ""}[rot]
+	connS, connV := "", 0
+	if nondet_bool("port-conn-set") {
+		connS, connV = verifDigitsB("port-conn", 2)
+	}
+	bindS, bindV := verifDigitsB("port-bind", 2)
+	badPort := nondet_choice("bad-port", 3) // 0 none, 1 connect port not a number, 2 a host port not a number
+	if badPort == 1 {
+		connS = "4x"
+	}
+	h.Config.PortConn = connS
+	h.Config.PortBind = bindS
+	wantPort := connV
+	if connS == "" {
+		wantPort = bindV
+	}
+	nh := 1 + nondet_choice("hosts", 3)
+	var wantHosts []string
+	var wantPorts []int
+	for k := 0; k < nh; k++ {
+		name := []string{"h0.example", "10.0.0.2", "h2"}[k]
+		if nondet_bool("host-has-port") {
+			ps, pv := verifDigitsB("host-port", 2)
+			if badPort == 2 {
+				if k == nh-1 {
+					ps = "8o"
+				}
+			}
+			h.Config.Hosts = append(h.Config.Hosts, name+":"+ps)
+			wantPorts = append(wantPorts, pv)
+		} else {
+			h.Config.Hosts = append(h.Config.Hosts, name)
+			wantPorts = append(wantPorts, wantPort)
+		}
+		wantHosts = append(wantHosts, name)
+	}
+	hostPortBad := false
+	if badPort == 2 {
+		if len(h.Config.Hosts[nh-1]) > len(wantHosts[nh-1]) {
+			hostPortBad = true
+		}
+	}
+	uab := nondet_bytes("ua", 1)
+	verif_assume(uab[0] >= 0x20) // printable ASCII (the wide-string reader of the harness stops at NUL)
+	verif_assume(uab[0] < 0x7f)
+	ua := "UA" + string(uab)
+	h.Config.UserAgent = ua
+	nhd := nondet_choice("headers", 3)
+	var hdrs []string
+	for k := 0; k < nhd; k++ {
+		hdrs = append(hdrs, []string{"X-A: 1", "X-B: two"}[k])
+	}
+	h.Config.Headers = append([]string(nil), hdrs...)
+	hostHdr := ""
+	if nondet_bool("host-header") {
+		hostHdr = "front.example"
+	}
+	h.Config.HostHeader = hostHdr
+	h.Config.Secure = hostHdr != ""
+	var uris []string
+	for k := 0; k < nu; k++ {
+		uris = append(uris, []string{"/a", "/b/c"}[k])
+	}
+	h.Config.Uris = uris
+	proxy := nondet_bool("proxy")
+	h.Config.Proxy.Enabled = proxy
+	h.Config.Proxy.Type, h.Config.Proxy.Host, h.Config.Proxy.Port = "http", "px", "3128"
+	h.Config.Proxy.Username, h.Config.Proxy.Password = "pu", "pp"
+	b.config.ListenerType = handlers.LISTENER_HTTP
+	b.config.ListenerConfig = h
+
+	cfg, err := b.PatchConfig()
+	mustFail := false
+	if badPort == 1 {
+		mustFail = true
+	}
+	if hostPortBad {
+		mustFail = true
+	}
+	if method == "GET" || method == "get" {
+		mustFail = true
+	}
+	if mustFail {
+		verif_assert(err != nil, "a listener setting that cannot be encoded makes the build fail")
+		verif_witness()
+		return
+	}
+	verif_assert(err == nil, "a valid HTTP listener builds")
+	if err != nil {
+		return
+	}
+	r := &verifCfgReader{b: cfg, ok: true}
+	verifSkipGeneral(r)
+	verif_assert(r.i64() == kill, "kill date of the selected listener")
+	verif_assert(r.i32() == 0, "no working hours")
+	verif_assert(r.wide() == "POST", "method")
+	wantRot := uint32(1)
+	if rot == 0 {
+		wantRot = 0
+	}
+	verif_assert(r.i32() == wantRot, "host rotation as configured")
+	verif_assert(r.i32() == uint32(nh), "host count")
+	for k := 0; k < nh; k++ {
+		verif_assert(r.wide() == wantHosts[k], "every host, in order")
+		verif_assert(r.i32() == uint32(wantPorts[k]), "every host with its own port, or the listener's connect/bind port")
+	}
+	wantSec := uint32(0)
+	if h.Config.Secure {
+		wantSec = 1
+	}
+	verif_assert(r.i32() == wantSec, "TLS flag")
+	verif_assert(r.wide() == ua, "user agent")
+	var wantHdrs []string
+	if nhd == 0 {
+		wantHdrs = []string{"Content-type: */*"}
+	} else {
+		wantHdrs = append(wantHdrs, hdrs...)
+	}
+	if hostHdr != "" {
+		wantHdrs = append(wantHdrs, "Host: "+hostHdr)
+	}
+	verif_assert(r.i32() == uint32(len(wantHdrs)), "header count (configured headers plus the host header)")
+	for _, w := range wantHdrs {
+		verif_assert(r.wide() == w, "every header, the host header last")
+	}
+	wantUris := uris
+	if nu == 0 {
+		wantUris = []string{"/"}
+	}
+	verif_assert(r.i32() == uint32(len(wantUris)), "URI count")
+	for _, w := range wantUris {
+		verif_assert(r.wide() == w, "every URI, in order")
+	}
+	if proxy {
+		verif_assert(r.i32() == 1, "proxy enabled")
+		verif_assert(r.wide() == "http://px:3128", "proxy url")
+		verif_assert(r.wide() == "pu", "proxy user")
+		verif_assert(r.wide() == "pp", "proxy password")
+	} else {
+		verif_assert(r.i32() == 0, "proxy disabled")
+	}
+	verif_assert(r.ok, "the Demon's reads stay inside the block")
+	verif_assert(r.pos == len(cfg), "nothing follows the last field the Demon reads")
+	// a second payload for the same listener is configured the same way
+	cfg2, err2 := b.PatchConfig()
+	verif_assert(err2 == nil, "a second build for the same listener succeeds")
+	verif_assert(len(cfg2) == len(cfg), "a second build for the same listener yields the same configuration block")
+	verif_witness()
+}
